@@ -120,11 +120,14 @@ def sensitivity(argv):
             shutil.copytree(os.path.join(core.AK_REPO, "ak"), os.path.join(tmp, "ak"))
             path = os.path.join(tmp, m["file"])
             src = open(path, encoding="utf-8").read()
-            if src.count(m["old"]) != 1:
+            edits = m.get("edits") or [(m["old"], m["new"])]
+            if any(src.count(o) != 1 for o, _ in edits):
                 rows.append((m["id"], m["prop"], "STALE (pattern not found exactly once)"))
                 rc = 2
                 continue
-            open(path, "w", encoding="utf-8").write(src.replace(m["old"], m["new"]))
+            for o, nw in edits:
+                src = src.replace(o, nw)
+            open(path, "w", encoding="utf-8").write(src)
             tests_note = ""
             if with_tests:
                 shutil.copytree(os.path.join(core.AK_REPO, "tests"), os.path.join(tmp, "tests"))
@@ -149,6 +152,12 @@ def sensitivity(argv):
                 if ln.strip().startswith("violated:"):
                     what = ln.strip()[:160]
                     break
+            if m.get("expect_miss"):
+                rows.append((m["id"], m["prop"], tests_note + ("control: silent as expected" if r.returncode == 0
+                                                              else f"control: UNEXPECTED ALARM rc={r.returncode} {what}")))
+                if r.returncode != 0:
+                    rc = 1
+                continue
             rows.append((m["id"], m["prop"], tests_note + (("caught " + what) if caught else f"MISSED rc={r.returncode} {r.stdout[-300:]}")))
             if not caught:
                 rc = 1
